@@ -35,7 +35,7 @@ def sanitize(path):
             depth -= 1
             if depth == 0:
                 form = txt[start:i + 1]
-                if not form.startswith("(model-"):
+                if form.startswith(("(declare-", "(define-", "(assert", "(set-", "(check-sat")):
                     out.append(form + "\n")
         i += 1
     open(path, "w").write("".join(out))
